@@ -196,16 +196,17 @@ theorem trim_eq (k : Nat) : ∀ (n : Nat) (s : Int), -(2 ^ 63 : Int) ≤ s - 19 
 
 /-- unfolding of `toF64` on the `powi` path: a negative scale whose trimmed exponent stays within
     `0 ..= 308` -/
-theorem toF64_powi_unfold (dc : Nat → Nat) (neg : Bool) (n : Nat) (scale : Int) (hn : 0 < n) (hs : scale < 0)
+theorem toF64_powi_unfold (dc : Nat → Nat) (neg : Bool) (n : Nat) (scale : Int) (hn : 0 < n) (hs : scale ≠ 0)
+    (hsc0 : scale - 19 * (trimRounds dc n : Int) ≤ 0)
     (hlo : -(2 ^ 63 : Int) ≤ scale) (hk : 19 * (trimRounds dc n : Int) - scale ≤ 308) :
     toF64With dc neg n scale = (if neg then 2 ^ 63 else 0) +
       mul (ofNat (n / 10 ^ (19 * trimRounds dc n))) (powi ten (19 * (trimRounds dc n : Int) - scale).toNat) := by
   unfold toF64With
   have e0 : (n == 0) = false := by simp; omega
-  have e1 : (scale == 0) = false := by simp; omega
+  have e1 : (scale == 0) = false := by simpa using hs
   simp only [e0, e1, Bool.false_eq_true, if_false]
   have ht := trim_eq (trimRounds dc n) n scale (by omega)
-  unfold trimRounds at ht hk ⊢
+  unfold trimRounds at ht hk hsc0 ⊢
   rw [ht]
   simp only
   have c1 : (decide (scale - 19 * (((dc (n.log2 + 1) - 25) / 19 : Nat) : Int) < -(2 ^ 31 - 1)) ||
@@ -226,12 +227,13 @@ namespace BigDec.F64
     exponent is at most 308, and provided the trimming (which drops `19·rounds` low digits) leaves at
     least 25 digits, the result is the sign bit plus either infinity or a double within `2^-48`
     (relative) of the exact value `n · 10^(-scale)`. -/
-theorem toF64_powi_tolerance (dc : Nat → Nat) (neg : Bool) (n : Nat) (scale : Int) (hn : 0 < n) (hs : scale < 0)
+theorem toF64_powi_tolerance (dc : Nat → Nat) (neg : Bool) (n : Nat) (scale : Int) (hn : 0 < n) (hs : scale ≠ 0)
+    (hsc0 : scale - 19 * (trimRounds dc n : Int) ≤ 0)
     (hlo : -(2 ^ 63 : Int) ≤ scale) (hk : 19 * (trimRounds dc n : Int) - scale ≤ 308)
     (hkeep : trimRounds dc n = 0 ∨ 10 ^ (19 * trimRounds dc n + 24) ≤ n) :
     ∃ R, toF64With dc neg n scale = (if neg then 2 ^ 63 else 0) + R ∧
       (R = inf ∨ |valQ R - (n : ℚ) * (10 : ℚ) ^ (-scale)| ≤ (n : ℚ) * (10 : ℚ) ^ (-scale) * (2 : ℚ) ^ (-48 : Int)) := by
-  rw [toF64_powi_unfold dc neg n scale hn hs hlo hk]
+  rw [toF64_powi_unfold dc neg n scale hn hs hsc0 hlo hk]
   refine ⟨_, rfl, ?_⟩
   generalize hit : trimRounds dc n = it at *
   obtain ⟨K, hK⟩ : ∃ K : Nat, (19 * (it : Int) - scale) = K := ⟨(19 * (it : Int) - scale).toNat, by omega⟩
